@@ -16,6 +16,16 @@ AddOK(r) == IF Accepts(r.v, r.m) THEN Ok(r.add) ELSE ~Ok(r.add) /\ r.db_unchange
 \* known deviation (fixed): a file cut inside a <Lexicon ...> start tag was "added" silently
 DevAddSilentOnTruncatedStartTag(r) ==
   /\ ~AddOK(r) /\ r.m.kind = "unbalance" /\ r.m.attr = "start-tag" /\ Ok(r.add) /\ r.db_unchanged
+\* known deviation: add() decides from the quick scan alone that there is nothing to do (here:
+\* every lexicon the scan found is an extension whose base is neither installed nor in the
+\* file) and returns without ever parsing the file - a malformed rest goes unreported
+AllSkippable(r) ==
+  /\ Ok(r.scan_st) /\ Len(r.scan) >= 1
+  /\ \A k \in DOMAIN r.scan :
+        /\ r.scan[k][4] # "~"
+        /\ ~\E j \in DOMAIN r.scan : r.scan[j][1] = r.scan[k][4] /\ r.scan[j][2] = r.scan[k][5]
+DevAddSkipsWithoutParsing(r) ==
+  /\ ~AddOK(r) /\ ~Accepts(r.v, r.m) /\ Ok(r.add) /\ r.db_unchanged /\ AllSkippable(r)
 IsLmfOK(r) == Ok(r.is_lmf_st) /\ (r.is_lmf <=> HeaderOK(r.m))
 \* scan_lexicons(): the lexicons a full load returns, in order
 LoadedLex(r) == [k \in DOMAIN r.loaded.lex |->
@@ -30,13 +40,14 @@ Cl(ok, name) == IF ok THEN {} ELSE {name}
 Fails(r) ==
   IF "timeout" \in DOMAIN r THEN {"Terminates"} ELSE
   Cl(LoadOK(r), "LoadAcceptsExactlyValidDocuments") \cup Cl(NeutralOK(r), "NeutralMutationSameResult")
-  \cup Cl(AddOK(r) \/ DevAddSilentOnTruncatedStartTag(r), "AddRejectsAsAWhole")
+  \cup Cl(AddOK(r) \/ DevAddSilentOnTruncatedStartTag(r) \/ DevAddSkipsWithoutParsing(r), "AddRejectsAsAWhole")
   \cup Cl(IsLmfOK(r), "IsLmfIffHeaderAccepted")
   \cup Cl(ScanOK(r) \/ DevScanDisagrees(r), "ScanAgreesWithLoad")
 Devs(r) ==
   IF "timeout" \in DOMAIN r THEN {} ELSE
   (IF DevAddSilentOnTruncatedStartTag(r) THEN {"DevAddSilentOnTruncatedStartTag"} ELSE {})
   \cup (IF DevScanDisagrees(r) THEN {"DevScanDisagrees"} ELSE {})
+  \cup (IF DevAddSkipsWithoutParsing(r) THEN {"DevAddSkipsWithoutParsing"} ELSE {})
 Judge == LET r == Recs[i]  f == Fails(r)  d == Devs(r) IN
   /\ f = {} \/ PrintT(ToJson([k |-> "FAIL", id |-> r.id, c |-> f, m |-> IF "m" \in DOMAIN r THEN r.m ELSE "-"]))
   /\ d = {} \/ PrintT(ToJson([k |-> "DEV", id |-> r.id, d |-> d]))
